@@ -85,6 +85,27 @@ impl Out {
 	}
 }
 
+static COMPAT: std::sync::atomic::AtomicBool = std::sync::atomic::AtomicBool::new(false);
+
+/// `--compat`: generate only parameters that fit the default `u8` PeriodType (<= 254), so that the
+/// same seed yields the same programs in every PeriodType build (C19/C20 cross-build comparison)
+pub fn set_compat(on: bool) {
+	COMPAT.store(on, std::sync::atomic::Ordering::Relaxed);
+}
+
+pub fn is_compat() -> bool {
+	COMPAT.load(std::sync::atomic::Ordering::Relaxed)
+}
+
+/// the maximum of PeriodType as seen by the generators
+pub fn gen_max() -> u64 {
+	if COMPAT.load(std::sync::atomic::Ordering::Relaxed) {
+		254
+	} else {
+		yata::core::PeriodType::MAX as u64
+	}
+}
+
 pub fn fbits(x: f64) -> String {
 	format!("{:016x}", x.to_bits())
 }
